@@ -11,7 +11,7 @@ const char *CHK_RULE = "one case = one stream of 2..12 generated lines (valid fo
 
 static prng_t HA;
 static long lines_started; static int solo_line = -1;
-static bool hold_pending; static int hold_status;
+static bool hold_pending; static int hold_status, hold_delay;
 #define MAXL 16
 static uint8_t *snap[MAXL]; static int nsnap; static size_t nvarbytes;
 static bool line_crlf[MAXL + 1]; static int line_cls[MAXL + 1]; static int nlines;
@@ -32,7 +32,7 @@ static cat_return_state policy(struct hcall *h)
         else if (r < 91) c = CAT_RETURN_STATE_PRINT_CMD_LIST_OK;
         else if (r < 95) c = pr_pct(p, 50) ? CAT_RETURN_STATE_HOLD_EXIT_OK : CAT_RETURN_STATE_HOLD_EXIT_ERROR;
         else c = (cat_return_state)(20 + (int)pr_n(p, 4));
-        if (c == CAT_RETURN_STATE_HOLD) { hold_pending = true; hold_status = (int)pr_n(p, 2); }
+        if (c == CAT_RETURN_STATE_HOLD) { hold_pending = true; hold_status = (int)pr_n(p, 2); hold_delay = (int)pr_n(p, 7); }     /* the release comes 0..6 service calls later (a logical, per-line delay: identical in the stream and in the single-line run) */
         return c;
 }
 static int vpolicy(int ci, int vi, int dir, size_t ws) { (void)ci; (void)vi; (void)dir; (void)ws; return pr_pct(&HA, 3) ? 1 : 0; }
@@ -70,7 +70,7 @@ static bool run_stream(int fillmode, const uint8_t *vars)
         long bound = 20000 + 80 * (long)(INLEN + 4) * ((long)W.ncmds + 3);
         for (long i = 0; i < bound; i++) {
                 cat_status s = svc();
-                if (hold_pending) { hold_pending = false; cat_hold_exit(W.at, hold_status ? CAT_STATUS_ERROR : CAT_STATUS_OK); }
+                if (hold_pending && hold_delay-- <= 0) { hold_pending = false; cat_hold_exit(W.at, hold_status ? CAT_STATUS_ERROR : CAT_STATUS_OK); }
                 if (s == CAT_STATUS_OK && INPOS >= INLEN) return true;
         }
         return false;
